@@ -21,7 +21,7 @@ type Universe struct {
 	Vulns    []GenVuln           `json:"vulns"`
 	Pkgs     []string            `json:"pkgs"`
 	Versions map[string][]string `json:"versions"`
-	NameSafe bool                `json:"name_safe"` // no package name needs escaping in a gjson path (C13 domain)
+	NameSafe bool                `json:"name_safe"` // no package name needs escaping in a gjson path (informational)
 }
 
 // GenVuln is a generated OSV record in a compact form.
@@ -126,7 +126,8 @@ func genUniverse(r *rand.Rand, sys string, odd bool) *Universe {
 				name = "@sc/" + name
 			}
 			if odd && r.Intn(3) == 0 {
-				name = "p" + string(rune('a'+i)) + ".io" // needs escaping in a gjson path
+				// names that need escaping in a gjson path
+				name = "p" + string(rune('a'+i)) + pick(r, []string{".io", ".io", "*x", "?y", ".a.b"})
 				u.NameSafe = false
 			}
 		} else {
